@@ -615,6 +615,7 @@ struct Session {
     reads: usize,
     client_closed: bool,
     out_ended: bool,
+    runaway: bool,
     failure: Option<String>,
     delivered_events: u32,
     deferred: bool,
@@ -673,6 +674,7 @@ impl Session {
             reads: 0,
             client_closed: false,
             out_ended: false,
+            runaway: false,
             failure: None,
             delivered_events: 0,
             deferred: false,
@@ -754,7 +756,7 @@ impl Session {
             }
             n += 1;
             if n > 10_000 {
-                self.failure.get_or_insert_with(|| "the server produced more than 10000 messages without becoming pending".into());
+                self.runaway = true;
                 break;
             }
         }
@@ -775,6 +777,10 @@ impl Session {
                     self.failure = Some(e);
                 }
             }
+        }
+        if self.runaway {
+            self.out_ended = true; // stop driving this session
+            self.failure.get_or_insert_with(|| "the server produced more than 10000 messages without becoming pending".into());
         }
     }
 
@@ -822,7 +828,11 @@ impl Session {
                 _ => None,
             })
             .collect();
-        items.join(" ")
+        if items.len() > 40 {
+            format!("{} …(+{} more)", items[..40].join(" "), items.len() - 40)
+        } else {
+            items.join(" ")
+        }
     }
 
     fn trace(&self) -> String {
@@ -841,6 +851,9 @@ impl Session {
                 Ev::OutEnd => "END".into(),
             })
             .collect();
+        if items.len() > 60 {
+            return format!("{} ; …(+{} more events)", items[..60].join(" ; "), items.len() - 60);
+        }
         items.join(" ; ")
     }
 }
